@@ -289,3 +289,25 @@ Proof.
     - discriminate. }
   destruct G as [A2 [T2 C2]]. eapply IH; eauto.
 Qed.
+
+(** why the determination must be one atomic compare-and-swap: with the test and the set as two
+    steps (an atomic load followed by an atomic store — a seeded change, not the code), two
+    alternatives whose events are delivered at the same moment both see "not determined" *)
+Inductive tas_label := TLoad (i : nat) | TStore (i : nat).
+Record tas := { flag : bool; saw : list (option bool); winners : nat }.
+Definition tas_step (s : tas) (l : tas_label) : option tas :=
+  match l with
+  | TLoad i => match nth i (saw s) None with
+               | None => Some {| flag := flag s; saw := upd (saw s) i (Some (flag s)); winners := winners s |}
+               | Some _ => None
+               end
+  | TStore i => match nth i (saw s) None with
+                | Some false => Some {| flag := true; saw := upd (saw s) i (Some true); winners := S (winners s) |}
+                | _ => None
+                end
+  end.
+Fixpoint tas_exec (s : tas) (p : list tas_label) : option tas :=
+  match p with [] => Some s | l :: r => match tas_step s l with Some s' => tas_exec s' r | None => None end end.
+Lemma refuted_split_test_and_set :
+  exists s, tas_exec {| flag := false; saw := [None; None]; winners := 0 |} [TLoad 0; TLoad 1; TStore 0; TStore 1] = Some s /\ winners s = 2.
+Proof. eexists. split; [vm_compute; reflexivity|]. reflexivity. Qed.
